@@ -369,3 +369,94 @@ def result_variants(fn, ex):
             nm = M.callee_str(t["f"])
             out.append((bb, "term", "from_residual" if "FromResidual" in nm else "call:" + nm, t))
     return out
+
+
+# ----------------------------------------------------------------------------
+# uses of locals (for discarded-result detection)
+# ----------------------------------------------------------------------------
+
+
+def _place_locals(p, out):
+    out.add(p["l"])
+    for e in p["proj"]:
+        if e["k"] == "index":
+            out.add(e["l"])
+
+
+def _operand_locals(o, out):
+    if o["k"] in ("copy", "move"):
+        _place_locals(o["p"], out)
+
+
+def _rvalue_locals(r, out):
+    k = r["k"]
+    if k in ("use", "cast", "repeat"):
+        _operand_locals(r["op"], out)
+    elif k in ("ref", "rawptr", "discr"):
+        _place_locals(r["p"], out)
+    elif k == "bin":
+        _operand_locals(r["a"], out)
+        _operand_locals(r["b"], out)
+    elif k == "un":
+        _operand_locals(r["a"], out)
+    elif k == "agg":
+        for o in r["ops"]:
+            _operand_locals(o, out)
+
+
+def local_reads(fn):
+    """local -> list of (bb, where) where the local's value is read (drops excluded)"""
+    reads = {}
+
+    def add(ls, bb, w):
+        for l in ls:
+            reads.setdefault(l, []).append((bb, w))
+
+    for bb in sorted(fn.live_blocks()):
+        b = fn.blocks[bb]
+        for si, s in enumerate(b["stmts"]):
+            if s["k"] == "assign":
+                ls = set()
+                _rvalue_locals(s["r"], ls)
+                # reading through a projected destination (e.g. (*_1).x = ..) uses _1
+                if s["p"]["proj"]:
+                    ls.add(s["p"]["l"])
+                add(ls, bb, si)
+        t = b["term"]
+        ls = set()
+        if t["k"] == "switch":
+            _operand_locals(t["d"], ls)
+        elif t["k"] in ("call", "tailcall"):
+            for a in t["args"]:
+                _operand_locals(a, ls)
+            if "indirect" in t["f"]:
+                _operand_locals(t["f"]["indirect"], ls)
+            if t["k"] == "call" and t["dest"]["proj"]:
+                ls.add(t["dest"]["l"])
+        elif t["k"] == "assert":
+            _operand_locals(t["cond"], ls)
+        add(ls, bb, "term")
+    return reads
+
+
+def discarded_results(fn):
+    """call sites whose Result value is thrown away: the destination local (a Result, or the
+    Option produced by `.ok()` / `.err()` on a Result) is never read"""
+    reads = local_reads(fn)
+    out = []
+    for bb, t in fn.calls():
+        if t["k"] != "call" or t["dest"]["proj"]:
+            continue
+        ty = t["dest"]["ty"]
+        nm = M.callee_str(t["f"])
+        l = t["dest"]["l"]
+        if l == 0:
+            continue
+        is_res = ty.startswith("std::result::Result<")
+        is_ok = nm in ("std::result::Result::<T, E>::ok", "std::result::Result::<T, E>::err")
+        if not (is_res or is_ok):
+            continue
+        uses = [u for u in reads.get(l, [])]
+        if not uses:
+            out.append((bb, t, "discarded" if is_res else "discarded-through-" + nm.split("::")[-1]))
+    return out
